@@ -54,7 +54,8 @@ ELEMENT_IDS: List[Any] = [1, 0, -1, 2, 3, 'abc', '', '1', 2 ** 62, 'id-é', 7, '
 
 
 # --- documents -----------------------------------------------------------------------------------------------------
-def gen_element(ch: Choices, tok: str, id_: Any, notification: bool, exotic: bool = False) -> Tuple[Dict[str, Any], str]:
+def gen_element(ch: Choices, tok: str, id_: Any, notification: bool, exotic: bool = False,
+                reentrant: bool = False) -> Tuple[Dict[str, Any], str]:
     """One request element (a JSON object) and its kind."""
     kind = ['ok', 'unknown', 'nobind', 'proto', 'exc', 'invalid', 'novalidate', 'internal'][
         ch.weighted([6, 2, 3, 3, 3, 2, 2, 1], 'el.kind')]
@@ -62,7 +63,8 @@ def gen_element(ch: Choices, tok: str, id_: Any, notification: bool, exotic: boo
         c = None
         for _ in range(8):
             c = gen.logical_call(ch, tok, allow_fail=kind != 'ok', allow_notification=False,
-                                 extra_codes=(0,), extra_messages=('',), exotic=exotic, ctx_methods=True)
+                                 extra_codes=(0,), extra_messages=('',), exotic=exotic, ctx_methods=True,
+                                 reentrant=reentrant)
             is_fail = c.method.startswith('fail')
             if (kind == 'ok' and not is_fail) or (kind == 'proto' and c.method in ('fail_proto', 'fail_typed')) or \
                     (kind == 'exc' and c.method == 'fail_exc'):
@@ -140,7 +142,7 @@ JUNK_TEXTS = ['', ' ', '{', '[', '}', 'nul', '{"jsonrpc": "2.0", "method": "echo
 
 
 def gen_document(ch: Choices, max_len: int = 5, allow_junk: bool = True, tok_prefix: str = '',
-                 exotic: bool = False) -> Dict[str, Any]:
+                 exotic: bool = False, reentrant: bool = False) -> Dict[str, Any]:
     """A request text plus a description.  {'text', 'shape', 'kinds', 'doc'}"""
     shape = ['single', 'batch', 'junk_text', 'nonobject', 'empty_batch'][
         ch.weighted([5, 8, 1 if allow_junk else 0, 1 if allow_junk else 0, 1 if allow_junk else 0], 'doc.shape')]
@@ -158,7 +160,7 @@ def gen_document(ch: Choices, max_len: int = 5, allow_junk: bool = True, tok_pre
     all_notif = shape == 'batch' and ch.flag(1, 8, 'doc.all_notifications')
     for k in range(n):
         notification = all_notif or ch.flag(1, 4, 'el.notification')
-        el, kind = gen_element(ch, f'{tok_prefix}t{k}', ids[k], notification, exotic)
+        el, kind = gen_element(ch, f'{tok_prefix}t{k}', ids[k], notification, exotic, reentrant)
         els.append(el)
         kinds.append(kind + ('.n' if 'id' not in el or el.get('id') is None else ''))
     if shape == 'batch' and n >= 2 and ch.flag(1, 6, 'doc.dup_id'):
@@ -527,6 +529,7 @@ class ServerUnderTest:
         cls = pjrpc.server.AsyncDispatcher if is_async else pjrpc.server.Dispatcher
         self.dispatcher = cls(**kwargs)
         self.dispatcher.add_methods(self.service.registry())
+        self.service.dispatcher = self.dispatcher
         self._publish_guarded()
         self.context = context
         self.server = ServerNode(w, self.dispatcher, self.loop, node=node,
@@ -547,6 +550,7 @@ class ServerUnderTest:
         self.generation += 1
         self.service = Service(self.w, self.cfg['flavour'], node=self.node_name, generation=self.generation)
         self.dispatcher.add_methods(self.service.registry())
+        self.service.dispatcher = self.dispatcher
         self._publish_guarded()
         self.w.probe('server.redeployed')
 
